@@ -61,8 +61,8 @@ def gen(prop, stream, tier, avoid):
             if rng.chance(0.35):
                 op["aL"] = [[rng.pick([-2.0, 0.0, 1.0, 3.5]), rng.pick([0.5, 2.0, 4.0])] for _ in range(3)][:shapes.DIRS[kind]]
         elif k == "grid":
-            op["g"] = rng.weighted([("generate", 2), ("weight_list", 3), ("weight_scalar", 1), ("read", 4), ("reset", 0.5)])
-            op["nu"], op["nv"] = rng.randint(1, 4), rng.randint(1, 4)
+            op["g"] = rng.weighted([("generate", 2), ("weight_list", 3), ("weight_scalar", 1), ("read", 4), ("reset", 0.5), ("bumps", 1)])
+            op["nu"], op["nv"] = rng.randint(1, 5), rng.randint(1, 5)
             if op["nu"] == op["nv"]:
                 op["nv"] += 1
             op["w"] = rng.randint(2, 16) / 4.0
@@ -402,6 +402,27 @@ def run(script, ctx):
             if grid is None:
                 grid = CPGen.GridWeighted(4.0, 8.0, z_value=2.0)
             gk = op["g"]
+            if gk == "bumps":
+                # hills on the grid (positions drawn by the library from Python's global generator - seeded here): the z values of
+                # the grid points change; the weighted grid read afterwards carries the new heights. Atomic: a grid large enough,
+                # weights, a read (the weighted grid is cached), the bumps, and the checked read below.
+                import random as _random
+                if gm is None or gm["nu"] < 4 or gm["nv"] < 4:
+                    grid.generate(5, 6)
+                    gm = {"nu": 5, "nv": 6, "w": None}
+                if gm["w"] is None:
+                    grid.weight = op["w"]
+                    gm["w"] = [op["w"]] * ((gm["nu"] + 1) * (gm["nv"] + 1))
+                _ = grid.grid
+                _random.seed(op["seed"])
+                try:
+                    grid.bumps(1, bump_height=op["w"] + 1.0, base_extent=1)
+                    gm["bumped"] = True
+                    ctx.probe("grid_bumps")
+                    ctx.log("grid_bumps", "ok")
+                except Exception as e:
+                    ctx.log("grid_bumps", type(e).__name__)
+                gk = "read"
             if gk == "generate":
                 grid.generate(op["nu"], op["nv"])
                 gm = {"nu": op["nu"], "nv": op["nv"], "w": None}
@@ -432,6 +453,7 @@ def run(script, ctx):
                 ctx.log("grid_reset")
             else:
                 got = [[list(p) for p in row] for row in grid.grid]
+                base_grid = [[list(p) for p in row] for row in CPGen.Grid.grid.fget(grid)]
                 nu, nv = gm["nu"], gm["nv"]
                 ws = gm["w"] or [1.0] * ((nu + 1) * (nv + 1))
                 if len(got) != nu + 1 or any(len(r) != nv + 1 for r in got):
@@ -453,6 +475,8 @@ def run(script, ctx):
                     for v in range(nv + 1):
                         p = got[u][v]
                         pos = [(4.0 / nu) * u, (8.0 / nv) * v, 2.0]
+                        if gm.get("bumped"):
+                            pos = list(base_grid[u][v])      # the unweighted grid as the parent class reports it
                         ok, why = close(p[:3], [c * p[3] for c in pos], 1e-9, 16.0)
                         if not ok:
                             ctx.fail("grid_inconsistent", "grid point [%d][%d] = %r is not its position %r times its weight %r" % (u, v, p, pos, p[3]),
